@@ -22,6 +22,45 @@ CHECKS = {
  "C07": dict(cat="proof", tech="Lean 4 generator+parser model with table obligations (generator precedence = parser precedence) + round-trip search on real code + generator-model correspondence",
    text="Kernel-checked obligations: the generator's precedence map equals the parser's table and the model's copies equal the code's; the complete generator model (every visit_* method) is compared text-for-text with the real generator on every program of the pool; the property itself (parse.generate.parse = parse, both configurations, second generation identical) is evaluated on the real code for all programs rendered by the Lean specs, the corpus and accepted token mutants.",
    note="The round-trip theorem over the models is not yet proved; the kernel-checked part is the table obligations. Trusted: Lean kernel, extractor, harness.", ref="§6 C07"),
+ "C01": dict(cat="proof", tech="Lean 4 grammar specs (expressions, declarators, statements) + kernel-checked vocabulary/FIRST-set obligations + acceptance search on real parser and Lean parser model",
+   text="Programs are renderings of the Lean specifications of C99 6.5 / 6.7.5 / 6.8 (valid by construction) plus gcc-validated one-feature C99/C11 programs; the real parser and the complete Lean parser model must accept all of them. Kernel-checked: keyword / punctuator tables against the standard, FIRST-set tables of the model against the code.",
+   note="partial: the acceptance theorem for all derivable translation units is not proved; acceptance is observed on the real code. Open findings (valid C rejected) are listed in known_findings.json. Trusted: Lean kernel, Spec/*.lean, gcc for the feature list, extractor, harness.", ref="§6 C01"),
+ "C04": dict(cat="proof", tech="Lean 4 spec of C99 block scoping + refinement theorems for the parser model's scope stack + exhaustive history correspondence",
+   text="Spec/Scoping.lean defines when a name is a type from C99 6.2.1 alone; theorems: the parser model's scope-stack operations refine the specification's scope map (declaration in the innermost scope decides, other names untouched, opening a block is transparent, inner hides outer until close, lookup = spec lookup) for all stacks and names. All well-formed histories of <=3 (thorough 4) events over 2 names x nesting depth 2 x 4 prefixes, both names probed after every event with 4 probe forms, are run on the real parser and compared with Spec.isType.",
+   note="partial: the theorems cover the scope data structure; the *timing* of registrations is covered by the exhaustive histories, and its known deviations are open findings (late registration, enumerator/label shadowing, for-init leak, prototype parameters, self-reference in initializer). Trusted: Lean kernel, Spec/Scoping.lean, harness.", ref="§6 C04"),
+ "C08": dict(cat="other", tech="Lean 4 proved counter-example (designator encoding not injective) + precedence obligations + gcc -S differential on generated type-correct programs",
+   text="A compiler's code generation cannot be modelled in Lean. Machine-checked: precedence obligations (generator = parser = C99) and a proved counter-example to the property (two different token sequences, '[N] = 1' and '.N = 1', get the same AST in the parser model; replayed on the real code as a known finding). The property's own oracle - gcc -std=c11 -S at -O0/-O1 on original vs regenerated text, both generator configurations - is run on type-correct programs from a semantic generator and on the corpus.",
+   note="Not a proof of the property: differential evidence plus one proved counter-example class; level 'other'. Trusted: gcc, harness/semgen.py.", ref="§6 C08, §10"),
+ "C10": dict(cat="proof", tech="Lean 4 lexical spec of C99 literals + suffix-typing theorem for all spellings + exhaustive spec-vs-lexer-vs-model classification",
+   text="Spec/Lexical.lean recognises C99 6.4.4/6.4.5 literals (+ documented extensions). Theorem (all digit strings, all 23 suffixes): the type the parser model attaches to an integer constant is the one its suffix implies. Every string of length <=4 (thorough 5/6) over two literal alphabets is classified by the real lexer, by the specification and by the Lean scanner model (regexes regenerated from the source); random long literals of every kind are checked for class, value and Constant.type; malformed families must be reported through the error callback.",
+   note="The equivalence regex-table = spec for all strings is not proved (exhaustive on short strings instead). Trusted: Lean kernel, Spec/Lexical.lean, regex translation, harness.", ref="§6 C10"),
+ "C11": dict(cat="proof", tech="Lean 4 parser model with coordinates as token indices resolved from lexer events + theorems on resolution + recorded-layout oracle on real parser",
+   text="In the parser model a coordinate is (token index, file reference) and is turned into (file, line, column) by copying from the lexer event it indexes: theorems state that line/column/file of every token coordinate are those of that event and that lexer errors are reported at the scanner's position. The real parser is run on programs re-laid out by a renderer that records every token's (line, column, file), with linemarkers between arbitrary tokens: every node coordinate must be a recorded token start in the right file, leaf nodes must spell that token, required classes must carry a coordinate, illegal-character errors must be exact; all coordinates are also compared with the Lean model.",
+   note="Span membership (token lies inside its construct) is not modelled. Trusted: Lean kernel, layout renderer, harness.", ref="§6 C11"),
+ "C12": dict(cat="proof", tech="Lean 4 instance state machine: parse() re-initialises all state (theorem) + field-inventory obligation + call-sequence runs on real instances",
+   text="Theorems over the parser model: parse() overwrites every field of the instance state, hence the result of a call is independent of the prior state, the n-th result of any call sequence equals a fresh instance's, and the same text twice gives equal results. Kernel-checked inventory: every instance attribute the live CParser/CLexer/_TokenStream/CGenerator ever hold is one the model accounts for. Real instances are driven through random call sequences (valid, failing mid-scope, clashing names) and compared call by call with fresh ones, incl. CLexer.input() reuse, CGenerator reuse, and node-identity disjointness.",
+   note="Object identity is a runtime check only. Trusted: Lean kernel, extractor inventory, harness.", ref="§6 C12"),
+ "C13": dict(cat="proof", tech="Lean 4 non-interference theorem for interleaved deterministic machines + no-shared-mutable-state obligation from a write-site scan + scheduling-lexer runs",
+   text="Theorem (all schedules, any number of machines): the projection of an interleaved run on machine i equals its solo run. Kernel-checked obligation on the regenerated inventory: no module-level / class-level / default-argument object of c_parser, c_lexer, c_generator, c_ast is written after import. Real parsers are interleaved at lexer-call granularity through a scheduling lexer injected via lexer= (all schedules of length 6/9 for short inputs, random for long) and run in free-running threads with a 1e-6 s switch interval; every result is compared with the solo run.",
+   note="partial: CPython's bytecode-level thread switching and the thread-safety of re are exercised, not modelled. Trusted: Lean kernel, syntactic write-site scan, harness.", ref="§6 C13"),
+ "C14": dict(cat="proof", tech="Lean 4 generic reflection model + kernel-checked obligations on behaviourally extracted class tables (49 classes x every absent-subset) + traversal theorems",
+   text="tools/extract.py observes every live node class with sentinel values (constructor signature, __slots__, attr_names, children() and iteration for every subset of absent node-valued fields) and dumps _c_ast.cfg as _ast_gen.py parses it; the kernel checks that all observations equal the generic model driven by the class table, and that _ast_gen reproduces the checked-in classes. Theorems for all trees: generic traversal visits each reachable node exactly once, show() prints one line per reachable node, a visit_X method intercepts only class-X nodes and generic_visit never sees one.",
+   note="Open finding: attributes that hold nodes (Decl.align, Pragma.string of _Pragma). Trusted: Lean kernel, extractor, harness.", ref="§6 C14"),
+ "C15": dict(cat="proof", tech="Lean 4 model of Node.__repr__/_repr with coordinate-independence theorem + text correspondence + execution of eval/pickle/deepcopy",
+   text="The pycparser-specific part of the property - __repr__ and the list pretty-printer - is modelled in Lean and compared text-for-text with the real repr on every ASCII AST; theorem: repr is independent of coordinates for all trees. eval(repr), pickle protocols 2..HIGHEST and copy.deepcopy are executed on all ASTs of the pool (structural equality, coordinates, generated text, no shared nodes, mutation independence).",
+   note="partial: eval, pickle and copy are the interpreter's; exercised, not modelled. Trusted: Lean kernel, harness.", ref="§6 C15"),
+ "C16": dict(cat="proof", tech="Lean 4 theorems on scanner progress and token-stream buffering + exact tick correspondence model vs real call counts + growth measurement on scalable families",
+   text="Theorems: every scanner loop iteration consumes at least one character (all texts, all well-formed tables); filling the token buffer calls the lexer once per new entry and never moves the read index; mark/reset never touch buffer or lexer (speculation never re-lexes). The Lean parser model's tick counters must equal the real _TokenStream / lexer call counts exactly on 30 scalable families; the deterministic Python call count must grow at most ~linearly between sizes; adversarial literal families are timed with wide margins.",
+   note="partial: a parser-level linear bound for all inputs is not proved; re engine cost and wall-clock are outside the model. Trusted: Lean kernel, sys.setprofile counter, harness.", ref="§6 C16"),
+ "C17": dict(cat="proof", tech="Lean 4 theorem: parser model factored as finish . parseCore . strip, so the coordinate-free AST depends only on (class, spelling) sequence",
+   text="Theorem (all event streams, all file names): two lexer event streams with the same sequence of token classes and spellings give the same coordinate-free AST or are both rejected - by construction of the parser model, whose core never sees a position, file name or directive. Real parser: every program of the pool re-laid out 4 ways (one token per line, single line, random blanks, linemarkers changing line and file) must give identical AST dump and generated text; variants also run through the Lean model.",
+   note="That a re-laid-out text scans to the same (class, spelling) sequence is checked per case. Redundant parentheses are covered by C02's three parenthesisations. Trusted: Lean kernel, harness.", ref="§6 C17"),
+ "C18": dict(cat="proof", tech="Lean 4 soundness theorems for the bracket-mutation oracle + lexer-error lemmas + mutation search on real parser and Lean model",
+   text="Theorems (all token sequences): a balanced bracket sequence has equal opener/closer counts per kind, so deleting, duplicating (or re-kinding) a single bracket of a balanced sequence never yields a balanced one - the oracle 'mutant must be rejected' is sound. Real parser and Lean parser model: all single-bracket deletions/duplications/kind swaps and injections of non-token text into the pool programs, and all unbalanced bracket strings of length <=5 (thorough 8) in 5 contexts, must be rejected.",
+   note="'parse ok => brackets balanced' over the parser model is not yet proved. Trusted: Lean kernel, harness.", ref="§6 C18"),
+ "C19": dict(cat="proof", tech="Lean 4 include/guard model of cpp on the regenerated header tree with kernel-checked shape obligations + exhaustive single headers + random subsets on the real pipeline",
+   text="tools/extract.py regenerates the fake header tree as an abstract file system; kernel-checked: every file with own content is include-guarded, guards are distinct, include targets exist, includes precede content, no macro occurs in a text line, and every one of the 129 headers expands to one of the expected body sequences in the Cpp.lean model. Real pipeline (cpp + parse_file, 4 dialects, list/str arguments): all 129 headers alone, random subsets/orders/repetitions, all orders of first need of the three body groups; every typedef name must be usable; result must equal manual preprocess+parse; emitted bodies must match Cpp.lean.",
+   note="partial: cpp, the process and the file system are exercised, not modelled; the reduction of all header lists to the finite quotient is not yet a theorem. Trusted: Lean kernel, extractor, harness.", ref="§6 C19"),
 }
 NOT_YET = {}
 
